@@ -51,5 +51,4 @@ def _cancel_eof(o):
 
 FINDING_CLASSES = {
     "F5c": _some_abandon,
-    "F16": _cancel_eof,
 }
